@@ -494,6 +494,10 @@ class SharesManager(BaseManager):
             parent = parents[-1]
             parent.items |= shared_directory.items
 
+        # The removed directory no longer holds the items: they would be kept
+        # alive (and returned by queries) for as long as the directory object is
+        shared_directory.items = set()
+
         self._cleanup_term_map()
 
         self._event_bus.emit_sync(SharedDirectoryChangeEvent(shared_directory))
